@@ -154,17 +154,9 @@ def isIPv4 (s : Str) : Bool :=
 def innerEmpty (parts : List Str) : List Nat :=
   (List.range parts.length).filter (fun i => 1 ≤ i && i + 1 < parts.length && (parts.getD i []).isEmpty)
 
-/-- `IPv6Address._ip_int_from_string(addr)` does not raise -/
-def isIPv6Addr (a : Str) : Bool :=
-  if a.isEmpty then false else
-  let parts0 := splitOn ':' a
-  if parts0.length < 3 then false else
-  let last := parts0.getLastD []
-  -- an IPv4-style suffix becomes two hextets
-  let v4ok := !last.contains '.' || isIPv4 last
-  let parts := if last.contains '.' then parts0.dropLast ++ [['0'], ['0']] else parts0
-  if !v4ok then false else
-  if parts.length > 9 then false else
+/-- the `::` bookkeeping and the hextet checks of `IPv6Address._ip_int_from_string` on the list of
+    parts (an IPv4 suffix already replaced by two hextets) -/
+def skipCheck (parts : List Str) : Bool :=
   match innerEmpty parts with
   | _ :: _ :: _ => false                         -- more than one '::'
   | [k] =>
@@ -181,6 +173,19 @@ def isIPv6Addr (a : Str) : Bool :=
   | [] =>
     if parts.length != 8 then false
     else parts.all validHextet
+
+/-- `IPv6Address._ip_int_from_string(addr)` does not raise -/
+def isIPv6Addr (a : Str) : Bool :=
+  if a.isEmpty then false else
+  let parts0 := splitOn ':' a
+  if parts0.length < 3 then false else
+  let last := parts0.getLastD []
+  -- an IPv4-style suffix becomes two hextets
+  let v4ok := !last.contains '.' || isIPv4 last
+  let parts := if last.contains '.' then parts0.dropLast ++ [['0'], ['0']] else parts0
+  if !v4ok then false else
+  if parts.length > 9 then false else
+  skipCheck parts
 
 /-- `ipaddress.IPv6Address(s)` does not raise `AddressValueError` (`Utils.is_ipv6_address`) -/
 def isIPv6 (s : Str) : Bool :=
